@@ -244,13 +244,6 @@ func (o *OracleC05) knownBlock(x *Exec, s *Snap, v int, denom string, msg string
 			x.Label("c05:zero-valued-validator")
 			return true
 		}
-		// F-C17c family: division by zero in the reward split when every asset staked on
-		// the validator has reward weight zero
-		if o.zeroWeightValidator(s, v) {
-			x.KnownFinding("F-C17c")
-			x.Label("c05:zero-weight-validator")
-			return true
-		}
 	case strings.Contains(msg, "insufficient funds") || strings.Contains(msg, "is smaller than"):
 		// F-C05b: the shared rewards pool cannot pay what the claim computes (C12's findings)
 		if strings.Contains(msg, "spendable balance") || strings.Contains(msg, "insufficient funds") {
@@ -299,17 +292,3 @@ func moduleSeesZeroValue(s *Snap, v int, denom string) bool {
 	return false
 }
 
-func (o *OracleC05) zeroWeightValidator(s *Snap, v int) bool {
-	total := math.LegacyZeroDec()
-	any := false
-	for _, dn := range s.AssetOrder {
-		a := s.Assets[dn]
-		vs, ok := s.Vals[v].ValShares[dn]
-		if !ok || !vs.IsPositive() || a.TotalTokens.IsZero() || a.RewardStartTime.After(s.Time) {
-			continue
-		}
-		any = true
-		total = total.Add(a.RewardWeight)
-	}
-	return any && total.IsZero()
-}
